@@ -35,8 +35,17 @@ ASSUME = [
     '--flow=none on a group-start member that is active in a flow is ignored '
     'by cylc with a warning: such members are not judged; members that are '
     'not group-start are not judged for liveness while held or paused',
+    'the flows of a trigger = flow numbers allocated while the command '
+    'was executed + flows of its group-start members right after it; runs of '
+    'a member in other flows are natural runs of those flows and are not '
+    'counted; with --flow=new/N members other than group-start ones are not '
+    'judged for liveness if any member was active in another flow (the '
+    'flows merge); a trigger executed while the scheduler is already '
+    'shutting down is not judged',
     'after the latest trigger naming it a member may be submitted at most '
-    'once per flow (no retries configured)',
+    'once in the flows of that trigger (no retries configured); a job whose '
+    'kill command is pending makes no further progress (late messages of '
+    'orphaned jobs belong to C10)',
 ]
 
 
@@ -60,7 +69,7 @@ def _specs(tier: str):
             ('fanout-q1', [('P1', shapes['fanout'])], 1, 2, flows_q,
              {'queues': {'default': {'limit': 1}}}, (), 1),
             ('custom', [('P1', shapes['custom'])], 1, 2, flows_q, {}, (), 1),
-            ('chain2-f2', [('P1', shapes['chain2'])], 2, 2, flows_q, {},
+            ('prev-f2', [('P1', shapes['prev'])], 2, 2, ['all', 'new'], {},
              (), 1),
             ('chain3-paused', [('P1', shapes['chain3'])], 1, 2, flows_q,
              {'options': {'paused_start': True}, 'resume': True}, (), 2),
@@ -70,8 +79,11 @@ def _specs(tier: str):
              {'pre_op': ('hold', {'tasks': ['1/a', '1/b', '1/c']})}, (), 2),
             ('chain3-holdpt', [('P1', shapes['chain3'])], 1, 2, flows_q,
              {'options': {'holdcp': '0'}}, (), 1),
-            ('chain2-x2', [('P1', shapes['chain2'])], 1, 2, ['all', 'new'],
+            ('chain2-x2', [('P1', shapes['chain2'])], 1, 1, ['all', 'new'],
              {}, (), 2),
+            # the whole group twice; events settle between commands
+            ('chain2-x2g', [('P1', shapes['chain2'])], 1, 2, ['all'],
+             {'only_parts': ['1/a+1/b'], 'macro': True}, (), 2),
         ]
     out = []
     for name, secs, fcp, size, flows, extra, fails, budget in rows:
@@ -108,6 +120,8 @@ def catalogue(tier: str):
             if part not in parts:
                 parts.append(part)
         for part in parts:
+            if sp.get('only_parts') and part not in sp['only_parts']:
+                continue
             s = dict(sp)
             s['base'] = sp['name']
             s['part'] = part
@@ -124,7 +138,8 @@ def make_factory(spec, tier=None):
     if spec.get('resume'):
         rest = [('resume', {})]
     else:
-        rest = [(n, kw) for part, n, kw in alpha]
+        # a repeated trigger of the same group, default flow
+        rest = [(n, kw) for n, kw in first if kw['flow'] == ['all']]
     budget = spec.get('budget', 1)
 
     def ops(w):
@@ -139,6 +154,7 @@ def make_factory(spec, tier=None):
         outcomes = {t: ['failed'] for t in spec['fail_tasks']}
         return TriggerProfile(
             spec, ops=ops, op_budget=budget, outcomes=outcomes,
+            macro=bool(spec.get('macro')),
             monitors=[GroupTrigger, PoolInvariants], jump=())
     return factory
 
